@@ -22,6 +22,8 @@
    LnIntApproximation (float64) is not modelled: lnProvenWeight is a field of prover / verifier
    (as in ProverPersistedFields / MkVerifierWithLnProvenWeight); ValidateStateProof takes it
    through the abstract [ln_approx].
+   [isValid] is IsValid with /verif/fixes/C39.patch (the signature must be committable);
+   [isValid_unfixed] is the code before it.
    Not modelled: Prover.cachedProof (the model is the first CreateProof call), msgpack.
    Go maps (StateProof.Reveals) are association lists; [verify] walks them in list order (the Go
    iteration order is random: it only decides WHICH error is reported when several reveals are
